@@ -26,7 +26,7 @@ CASES = {'quick': len(ENUM) + 5000, 'thorough': len(ENUM) * 4 + 60000}
 GATES = {
     'quick': {'evaluations': 9000, 'built': 5500, 'enumerated_subsets': len(ENUM), 'classes_from_value': 28, 'classes_from_children': 34,
               'in_file_checks': 1500, 'value_readbacks': 12000, 'custom_values_needing_disambiguation': 8, 'custom_signed_after_number': 8},
-    'thorough': {'evaluations': 150000, 'classes_from_value': 28, 'classes_from_children': 34},
+    'thorough': {'evaluations': 90000, 'classes_from_value': 28, 'classes_from_children': 34},
 }
 RULE = ('case = one constructed model. The first ' + str(len(ENUM)) + ' cases enumerate, for every model class and both constructors, every '
         'subset of the optional arguments when there are <= 8 (one random in-domain value assignment each; thorough repeats the '
